@@ -4,7 +4,13 @@ import z3
 
 
 def I(v):
-    return v if z3.is_expr(v) else z3.IntVal(int(v))
+    if z3.is_expr(v):
+        if z3.is_bv(v):
+            return z3.BV2Int(v, is_signed=True)     # index-like quantity that happens to be carried as a bit-vector
+        if z3.is_bool(v):
+            return z3.If(v, 1, 0)
+        return v
+    return z3.IntVal(int(v))
 
 
 def prefix_starts(lens):
